@@ -104,7 +104,7 @@ def sd_res_j(s, v32=False):
 
 # ------------------------------------------------------------------ generators
 MT = [0, 1, 2, 0x40, 0x41, 0x42, 0x80, 0x81, 0xC0, 0xC1]
-ID16 = [0, 1, 0x00FF, 0x0100, 0x7FFF, 0x8000, 0xFFFE, 0xFFFF]
+ID16 = [0, 1, 0x00FF, 0x0100, 0x7FFF, 0x8000, 0xFFFE, 0xFFFF, 0xDEAD, 0xBEEF, 0x8100]      # boundaries + values the protocol gives a meaning
 PLEN = [0, 0, 1, 2, 7, 8, 9, 15, 16, 17, 255, 256, 1000]
 PLEN_BIG = [65527, 65528, 65529, 65535, 65536, 65537]
 
@@ -113,7 +113,28 @@ def rid(rng, bits=16):
     return rng.choice(ID16) if bits == 16 and rng.random() < 0.5 else rng.getrandbits(bits)
 
 
+def well_known(rng):
+    """messages the SOME/IP specification gives a special meaning (magic cookies of the TCP binding, an empty SD message) and near
+    misses of them: for the codec and the datagram / stream framing they are messages like any other"""
+    MT = hdr.SOMEIPMessageType
+    base = rng.choice([
+        dict(service_id=0xFFFF, method_id=0x0000, client_id=0xDEAD, session_id=0xBEEF, interface_version=1,
+             message_type=MT.REQUEST_NO_RETURN, return_code=hdr.SOMEIPReturnCode.E_OK, payload=b""),      # magic cookie client -> server
+        dict(service_id=0xFFFF, method_id=0x8000, client_id=0xDEAD, session_id=0xBEEF, interface_version=1,
+             message_type=MT.NOTIFICATION, return_code=hdr.SOMEIPReturnCode.E_OK, payload=b""),           # magic cookie server -> client
+        dict(service_id=0xFFFF, method_id=0x8100, client_id=0, session_id=1, interface_version=1,
+             message_type=MT.NOTIFICATION, return_code=hdr.SOMEIPReturnCode.E_OK, payload=bytes([0xC0, 0, 0, 0, 0, 0, 0, 0, 0, 0, 0, 0])),
+    ])
+    if rng.random() < 0.4:            # a near miss: one field off
+        k = rng.choice(["method_id", "client_id", "session_id", "interface_version", "payload"])
+        base[k] = {"method_id": rng.choice([0x0001, 0x8001, 0x7FFF]), "client_id": 0xDEAE, "session_id": 0xBEEE,
+                   "interface_version": 0, "payload": b"\x00"}[k]
+    return hdr.SOMEIPHeader(**base)
+
+
 def rand_msg(rng, big=False):
+    if not big and rng.random() < 0.06:
+        return well_known(rng)
     n = rng.choice(PLEN_BIG) if big else rng.choice(PLEN + [rng.randint(0, 300)])
     return hdr.SOMEIPHeader(service_id=rid(rng), method_id=rid(rng), client_id=rid(rng), session_id=rid(rng),
                             interface_version=rng.choice([0, 1, 0xFF, rng.getrandbits(8)]),
